@@ -1108,3 +1108,35 @@ Example C08_ipaths_sharp_ex : ipaths_ok [[IUser]] = false /\ ipaths_ok [[IFresh;
   (match iexec Z 1%Z (fun w r => (2 * w r)%Z) false [IFresh; INormalize false] [] None with Some w => w 0 | None => 0%Z end = 2%Z) /\
   (match iexec Z 1%Z (fun w r => (2 * w r)%Z) false [IUser] [fun _ => 5%Z] None with Some w => w 0 | None => 0%Z end = 5%Z).
 Proof. exact ipaths_sharp. Qed.
+
+(* ================================================================== round 8: the loop of tensor_ring_als at the level of shapes *)
+(* Model/StructureTrAls.v transcribes one ALS update as coded: the sub-chain tr_decomp[(dim+1) % n] ... tr_decomp[(dim+n-1) % n] contracted with
+   tensordot(axes=1), the transposition tr_idx, reshape(-1, rank[dim] * rank[dim+1]), the least-squares solve against the unfolding and the reshape of
+   the solution into the new core; every step fails where NumPy would raise (bond sizes, divisibility of the reshape, row counts).  For EVERY order
+   >= 2, rank specification accepted by validate_tr_rank with positive ranks, iteration cap and stopping path (callback stop, convergence from
+   iteration 1, cap; the decisions are universally quantified): no step fails and the returned cores are (rank_k, I_k, rank_k+1) with the validated,
+   CLOSED rank list - the closing (first rank = last rank) is what the proof of the sub-chain contraction uses, and on an open chain the update fails
+   (Example).  The shapes are the ones of the older one-line model tensor_ring_als (C08_tensor_ring_als_structure), now derived from the loop. *)
+From TLV Require Import Base.PyList Model.StructureTrAls Proofs.StructureTrAlsProofs.
+Local Open Scope nat_scope.
+Theorem C08_tensor_ring_als_loop_structure : forall shape spec tol_pos n_iter_max decisions rank,
+  2 <= length shape -> validate_tr_rank shape spec RRound = Ok rank -> Forall (fun r => 0 < r) rank ->
+  tr_als_run shape spec tol_pos n_iter_max decisions = Ok (trals_cores shape rank) /\
+  tensor_ring_als shape spec = Ok (trals_cores shape rank) /\
+  hd 0 rank = last rank 0 /\
+  forall k, k < length shape -> nth k (trals_cores shape rank) [] = [nth k rank 0; nth k shape 0; nth (S k) rank 0].
+Proof. exact tr_als_run_structure. Qed.
+Print Assumptions C08_tensor_ring_als_loop_structure.
+(* the least-squares systems of one sweep: core d is the solution of a (product of the other mode sizes) x (rank_d * rank_d+1) system with I_d
+   right-hand sides, for every d (the harness compares these with the logged lstsq calls of the first sweep of a run) *)
+Theorem C08_tensor_ring_als_sweep_systems : forall shape spec rank,
+  2 <= length shape -> validate_tr_rank shape spec RRound = Ok rank -> Forall (fun r => 0 < r) rank ->
+  tr_als_sweep_log shape rank (seq 0 (length shape)) (trals_cores shape rank) =
+  Ok (map (fun d => ([prod (remove_nth d shape); nth d rank 0 * nth (S d) rank 0], [prod (remove_nth d shape); nth d shape 0])) (seq 0 (length shape))).
+Proof. exact tr_als_sweep_systems. Qed.
+Print Assumptions C08_tensor_ring_als_sweep_systems.
+Example C08_tensor_ring_als_loop_ex :
+  tr_als_run [2; 3; 4] (RList [2; 3; 5; 2]) true 3 [(false, false); (false, true)] = Ok [[2; 2; 3]; [3; 3; 5]; [5; 4; 2]] /\
+  tr_als_update [2; 3; 4] [2; 3; 5; 3] (trals_cores [2; 3; 4] [2; 3; 5; 3]) 0 = Err /\
+  tr_als_sweep_log [2; 3] [2; 3; 2] [0; 1] (trals_cores [2; 3] [2; 3; 2]) = Ok [([3; 6], [3; 2]); ([2; 6], [2; 3])].
+Proof. vm_compute. repeat split; reflexivity. Qed.
